@@ -65,6 +65,41 @@ fn varint_u32_len(mut v: u32) -> usize {
     n
 }
 
+/// Bytes a leaf cell for `key` occupies in a page, slot included.
+fn leaf_cell_cost(key: &[u8]) -> usize {
+    varint_u32_len(key.len() as u32) + key.len() + 8 + 2
+}
+
+/// Bytes an internal cell for `key` occupies in a page, slot included.
+fn internal_cell_cost(key: &[u8]) -> usize {
+    8 + varint_u32_len(key.len() as u32) + key.len() + 2
+}
+
+/// Picks the split point of an overfull page: the position closest to the median for which
+/// both halves fit into a page of `capacity` bytes. `costs` are the per-cell costs in key order;
+/// the left half is `costs[..mid]`, the right half `costs[mid + skip..]` (`skip` is 1 for
+/// internal pages, whose median key moves up, and 0 for leaves). Splitting at the median by
+/// cell count alone overflows a half when key sizes differ a lot.
+fn split_point(costs: &[usize], skip: usize, capacity: usize) -> Option<usize> {
+    let len = costs.len();
+    if len == 0 {
+        return None;
+    }
+    let left = |mid: usize| costs[..mid].iter().sum::<usize>();
+    let right = |mid: usize| costs[mid + skip..].iter().sum::<usize>();
+    let mut mid = len / 2;
+    while mid > 0 && left(mid) > capacity {
+        mid -= 1;
+    }
+    while mid + 1 < len && right(mid) > capacity {
+        mid += 1;
+    }
+    if left(mid) > capacity || right(mid) > capacity {
+        return None;
+    }
+    Some(mid)
+}
+
 fn write_varint_u32(mut v: u32, out: &mut [u8]) -> usize {
     let mut i = 0;
     while v >= 0x80 {
@@ -491,7 +526,10 @@ impl BTree {
                                 .unwrap_or_else(|p| p);
                             entries.insert(pos, (key.to_vec(), payload));
 
-                            let mid = entries.len() / 2;
+                            let costs: Vec<usize> =
+                                entries.iter().map(|(k, _)| leaf_cell_cost(k)).collect();
+                            let mid = split_point(&costs, 0, PAGE_SIZE - COMMON_HEADER_SIZE)
+                                .ok_or(Error::WalProtocol("index page: no space"))?;
                             let left_entries = entries[..mid].to_vec();
                             let right_entries = entries[mid..].to_vec();
                             let sep_key = right_entries[0].0.clone();
@@ -806,7 +844,9 @@ impl BTree {
                 keys.insert(child_pos, sep_key);
                 children.insert(child_pos + 1, right_id);
 
-                let mid = keys.len() / 2;
+                let costs: Vec<usize> = keys.iter().map(|k| internal_cell_cost(k)).collect();
+                let mid = split_point(&costs, 1, PAGE_SIZE - INTERNAL_HEADER_SIZE)
+                    .ok_or(Error::WalProtocol("index page: no space"))?;
                 let promote = keys[mid].clone();
 
                 let left_keys = keys[..mid].to_vec();
@@ -1061,6 +1101,39 @@ mod tests {
             }
         }
         let want: Vec<u64> = (0..30).filter(|i| !(4..8).contains(i)).collect();
+        assert_eq!(got, want);
+    }
+    #[test]
+    fn leaf_split_of_mixed_key_sizes_keeps_both_halves_within_a_page() {
+        let dir = tempdir().unwrap();
+        let path = dir.path().join("btree-mixed.ndb");
+        let mut pager = Pager::open(&path).unwrap();
+        let mut tree = BTree::create(&mut pager).unwrap();
+
+        // Eight 2-byte keys, then nine 900-byte keys that sort after them: the leaf overflows on
+        // the ninth; a split at the median by cell count would put all nine large cells
+        // (9 x 912 bytes) into the right half.
+        let mut want = Vec::new();
+        for i in 0..8u8 {
+            tree.insert(&mut pager, &[b'a', i], i as u64).unwrap();
+            want.push((vec![b'a', i], i as u64));
+        }
+        for i in 0..9u8 {
+            let mut k = vec![b'k'; 900];
+            k[0] = b'z';
+            k[1] = i;
+            tree.insert(&mut pager, &k, 100 + i as u64).unwrap();
+            want.push((k, 100 + i as u64));
+        }
+
+        let mut cur = tree.cursor_lower_bound(&pager, &[]).unwrap();
+        let mut got = Vec::new();
+        while cur.is_valid().unwrap() {
+            got.push((cur.key().unwrap(), cur.payload().unwrap()));
+            if !cur.advance().unwrap() {
+                break;
+            }
+        }
         assert_eq!(got, want);
     }
 }
